@@ -11,6 +11,7 @@
 #include <fcppt/tuple/object_impl.hpp>
 #include <fcppt/config/external_begin.hpp>
 #include <algorithm>
+#include <type_traits>
 #include <utility>
 #include <fcppt/config/external_end.hpp>
 
@@ -47,15 +48,34 @@ Type interval_distance(fcppt::tuple::object<Type, Type> _i1, fcppt::tuple::objec
     std::swap(_i1, _i2);
   }
 
-  return i2_first <= i1_first
-             ?
-             // this difference represents
-             // either the positive distance between them or if they overlap,
-             // the amount by which they do (as negative "distance")
-             i1_first - i2_second
-             :
-             // one completely contains the other, so return the smaller of the two parts
-             std::max(i2_second - i1_second, i1_first - i2_first);
+  if (i2_first <= i1_first)
+  {
+    // this difference represents
+    // either the positive distance between them or if they overlap,
+    // the amount by which they do (as negative "distance")
+    return i1_first - i2_second;
+  }
+
+  // one completely contains the other, so return the smaller of the two parts
+  if constexpr (std::is_integral_v<Type> && std::is_signed_v<Type>)
+  {
+    // The longer part might not be representable even if the shorter one is. Calculate the lengths
+    // of both parts, which are nonnegative, using unsigned arithmetic.
+    using unsigned_type = std::make_unsigned_t<Type>;
+
+    auto const length{[](Type const &_upper, Type const &_lower) {
+      return static_cast<unsigned_type>(
+          static_cast<unsigned_type>(_upper) - static_cast<unsigned_type>(_lower));
+    }};
+
+    return static_cast<Type>(
+        unsigned_type{0U} -
+        std::min(length(i1_second, i2_second), length(i2_first, i1_first)));
+  }
+  else
+  {
+    return std::max(i2_second - i1_second, i1_first - i2_first);
+  }
 }
 }
 }
